@@ -810,6 +810,14 @@ def call(name, args, kwargs=()):
     if name in SIGN_INVARIANT_CALLS and len(args) >= 1 and args[0][0] == 'lin' and args[0][1] == 0 and len(args[0][2]) == 1 \
             and args[0][2][0][1] == -1:
         return ('call', name, (args[0][2][0][0],) + args[1:], kwargs)
+    if name == 'count' and len(args) == 1 and not kwargs and _masklike(args[0]):
+        # rows kept by a second selection on an already selected table: count(m2 over X[m1]) == count(m1 & m2 over X)
+        inner = {x[2][1] for x in walk(args[0]) if x[0] == 'idx' and isinstance(x[2], tuple) and x[2] and x[2][0] == 'rowsel' and _masklike(x[2][1])}
+        if len(inner) == 1:
+            m1 = next(iter(inner))
+            m = _compose_masks(m1, args[0], wrap='rowsel')
+            if m is not None and not any(x[0] == 'idx' and isinstance(x[2], tuple) and x[2] and x[2][0] == 'rowsel' for x in walk(m)):
+                return ('call', 'count', (m,), ())
     if name == 'append' and len(args) == 2 and args[1][0] == 'slice' and args[1][2:] == (('const', 1), NONE, NONE) \
             and args[0] == ('idx', args[1][1], ('const', 0)):
         return args[1][1]
